@@ -262,11 +262,29 @@ class C06(PropertyCheck):
             out.append((rnd(yy), rnd(xx)))
         return out
 
+    def _plumbing(self, rng, int_ok):
+        """round-3 hardening axes: dtype / container of every array argument, alternative constructors,
+        set-but-falsy optionals.  The exact model ignores all of them: results must be the same reals."""
+        dt = "float"
+        if int_ok and rng.random() < 0.9:
+            # (tuples of tuples are not an accepted coordinate container of Grid2DIrregular / Mesh2DDelaunay)
+            dt = rng.choice(["int_array", "int_list"])
+        return {"dtype": dt,
+                "grid_container": rng.choice(["irregular", "irregular", "ndarray"]),
+                "route": rng.choice(["mesh", "mesh", "direct"]),
+                "shape_container": rng.choice(["tuple", "tuple", "list"]),
+                "over": rng.choice(["sampler", "sampler", "sampling"]),
+                "run_time_dict": rng.choice(["none", "none", "empty"])}
+
     def _rect_case(self, rng, i):
         m, kind, subs = self._mask_subs(rng)
         n = sum(s * s for s in subs)
         h, w = rng.randint(3, 6), rng.randint(3, 6)
         style = rng.choice(["distort", "distort", "distort", "hug", "hug", "lattice", "line", "clump"])
+        want_int = rng.random() < 0.22 and style != "hug"
+        if want_int:
+            # integer points sit exactly on the middle boundary of an even mesh far too often: odd sides
+            h, w = rng.choice([3, 5]), rng.choice([3, 5])
         if style == "distort" or n < 3:
             style = "distort"
             pts = self._distort(rng, self._image_grid(rng, m, subs))
@@ -318,6 +336,9 @@ class C06(PropertyCheck):
             pts = [c] * n
             pts[rng.randrange(n)] = (c[0] + gen.pos_dyadic(rng, 1, 9, 2), c[1] - gen.pos_dyadic(rng, 1, 9, 2))
             pts[rng.randrange(n)] = (c[0] - gen.pos_dyadic(rng, 1, 9, 2), c[1] + gen.pos_dyadic(rng, 1, 9, 2))
+        if want_int:
+            # integer-valued coordinates, fed through integer-dtype arrays / python int containers
+            pts = [(F(round(4 * p[0])), F(round(4 * p[1]))) for p in pts]
         ys = {p[0] for p in pts}
         xs = {p[1] for p in pts}
         # a degenerate extent puts every point at pixel coordinate H/2 (W/2): exactly on a cell boundary
@@ -326,18 +347,23 @@ class C06(PropertyCheck):
             h += 1
         if len(xs) < 2 and w % 2 == 0:
             w -= 1
-        return {"tag": f"rect_{style}", "kind": "rect", "mask": mask_json(m), "mask_kind": kind,
+        return {"tag": f"rect_{style}" + ("_int" if want_int else ""), "kind": "rect", "mask": mask_json(m),
+                "mask_kind": kind, **self._plumbing(rng, want_int),
                 "sub_size": subs, "uniform_int_sub": len(set(subs)) == 1 and rng.random() < 0.5,
                 "scales": [q(F(1)), q(F(1))] if rng.random() < 0.5 else qlist(gen.scales_pair(rng)),
                 "origin": qlist(gen.origin_pair(rng)),
                 "grid": [qlist(p) for p in pts], "h": h, "w": w,
                 "degenerate_extent": len(ys) < 2 or len(xs) < 2}
 
-    def _points(self, rng):
+    def _points(self, rng, integer=False):
         while True:
             n = rng.choice([3, 4, 4, 5, 5, 6, 7, 8, 9, 10])
             bits = rng.choice([2, 3, 4])
-            pts = [(gen.dyadic(rng, -4, 4, bits), gen.dyadic(rng, -4, 4, bits)) for _ in range(n)]
+            if integer:
+                n = min(n, 8)
+                pts = [(F(rng.randint(-9, 9)), F(rng.randint(-9, 9))) for _ in range(n)]
+            else:
+                pts = [(gen.dyadic(rng, -4, 4, bits), gen.dyadic(rng, -4, 4, bits)) for _ in range(n)]
             if general_position(pts):
                 return pts
 
@@ -346,7 +372,22 @@ class C06(PropertyCheck):
         n = sum(s * s for s in subs)
         pts = self._points(rng)
         style = rng.choice(["distort", "special", "special", "hullhug"])
-        if style == "distort":
+        want_int = rng.random() < 0.22
+        if want_int:
+            # integer vertices and integer grid points (vertices, lattice points inside and outside the hull)
+            style = "intgrid"
+            pts = self._points(rng, integer=True)
+            g = []
+            while len(g) < n:
+                r = rng.random()
+                if r < 0.2:
+                    g.append(rng.choice(pts))
+                elif r < 0.5:
+                    a, b = rng.sample(range(len(pts)), 2)
+                    g.append((F(int((pts[a][0] + pts[b][0]) // 2)), F(int((pts[a][1] + pts[b][1]) // 2))))
+                else:
+                    g.append((F(rng.randint(-12, 12)), F(rng.randint(-12, 12))))
+        elif style == "distort":
             g = self._distort(rng, self._image_grid(rng, m, subs))
             # bring the cloud onto the mesh (half of the time) so both branches are hit
             if rng.random() < 0.6:
@@ -390,6 +431,7 @@ class C06(PropertyCheck):
                 s = rng.choice([-1, 1]) * eps * rng.choice([1, 4, 1024])
                 g.append((rnd(py + s * (py - cy), 40), rnd(px + s * (px - cx), 40)))
         return {"tag": f"delaunay_{style}", "kind": "delaunay", "mask": mask_json(m), "mask_kind": kind,
+                **self._plumbing(rng, want_int),
                 "sub_size": subs, "uniform_int_sub": len(set(subs)) == 1 and rng.random() < 0.5,
                 "scales": qlist(gen.scales_pair(rng)), "origin": qlist(gen.origin_pair(rng)),
                 "grid": [qlist(p) for p in g], "points": [qlist(p) for p in pts]}
@@ -415,36 +457,66 @@ class C06(PropertyCheck):
         if max(sizes) == 0:
             sizes[0] = 1
             idx[0][0] = 0
-        return {"tag": "tables_signed" if signed else "tables_nonneg", "kind": "tables", "sub_size": subs,
+        int_w = rng.random() < 0.2
+        if int_w:
+            wts = [[F(round(v)) for v in r] for r in wts]
+        return {"tag": ("tables_signed" if signed else "tables_nonneg") + ("_int" if int_w else ""),
+                "kind": "tables", "sub_size": subs, "dtype": "int_array" if int_w else "float",
                 "pixels": pixels, "idx": idx, "sizes": sizes, "wts": [qlist(r) for r in wts]}
 
     def _bary_cases(self, rng):
         # a non-degenerate triangle, a point inside (dyadic convex combination), all 6 vertex orders,
         # embedded in a mesh grid with decoy vertices
+        int_in = rng.random() < 0.3
         while True:
-            tri = [(gen.dyadic(rng, -4, 4, 3), gen.dyadic(rng, -4, 4, 3)) for _ in range(3)]
+            if int_in:
+                # integer vertices = 16 * small integers, so the dyadic convex combination is an integer point
+                tri = [(F(16 * rng.randint(-4, 4)), F(16 * rng.randint(-4, 4))) for _ in range(3)]
+            else:
+                tri = [(gen.dyadic(rng, -4, 4, 3), gen.dyadic(rng, -4, 4, 3)) for _ in range(3)]
             if orient(*tri) != 0:
                 break
         l0 = F(rng.randint(0, 16), 16)
         l1 = F(rng.randint(0, 16 - int(l0 * 16)), 16)
         lam = [l0, l1, 1 - l0 - l1]
         p = (sum(l * v[0] for l, v in zip(lam, tri)), sum(l * v[1] for l, v in zip(lam, tri)))
-        decoys = [(gen.dyadic(rng, -4, 4, 3), gen.dyadic(rng, -4, 4, 3)) for _ in range(rng.randint(0, 3))]
+        if int_in:
+            decoys = [(F(rng.randint(-64, 64)), F(rng.randint(-64, 64))) for _ in range(rng.randint(0, 3))]
+        else:
+            decoys = [(gen.dyadic(rng, -4, 4, 3), gen.dyadic(rng, -4, 4, 3)) for _ in range(rng.randint(0, 3))]
         mesh = decoys + tri
         rng.shuffle(mesh)
         ids = [mesh.index(v) for v in tri]
         rows = [list(perm) for perm in itertools.permutations(ids)]
-        yield {"tag": "bary_orders", "kind": "bary", "mesh": [qlist(v) for v in mesh],
+        yield {"tag": "bary_orders" + ("_int" if int_in else ""), "kind": "bary",
+               "dtype": rng.choice(["int_array", "int_mesh_only"]) if int_in else "float",
+               "mesh": [qlist(v) for v in mesh],
                "grid": [qlist(p)] * len(rows) + [qlist(p)], "idx": rows + [[ids[0], -1, -1]]}
         # nearest vertex with ties: points on a small integer lattice, query with equal distances
         pts = [(F(rng.randint(-2, 2)), F(rng.randint(-2, 2))) for _ in range(rng.randint(1, 7))]
         qs = [(F(rng.randint(-4, 4), 2), F(rng.randint(-4, 4), 2)) for _ in range(4)]
-        yield {"tag": "nearest_ties", "kind": "nearest", "points": [qlist(v) for v in pts],
+        int_near = rng.random() < 0.3
+        if int_near:
+            qs = [(F(rng.randint(-4, 4)), F(rng.randint(-4, 4))) for _ in range(4)]
+        yield {"tag": "nearest_ties" + ("_int" if int_near else ""), "kind": "nearest",
+               "dtype": "int_array" if int_near else "float", "points": [qlist(v) for v in pts],
                "grid": [qlist(v) for v in qs]}
 
     # ============================================================== implementation
-    def _np(self, pairs):
-        return np.array([[float(F(a)), float(F(b))] for a, b in pairs], dtype=float).reshape(-1, 2)
+    def _np(self, pairs, dtype="float"):
+        """(N,2) coordinates as float64 ndarray / int64 ndarray / python int lists / tuples."""
+        if dtype == "float" or dtype is None:
+            return np.array([[float(F(a)), float(F(b))] for a, b in pairs], dtype=float).reshape(-1, 2)
+        ints = []
+        for a, b in pairs:
+            fa, fb = F(a), F(b)
+            assert fa.denominator == 1 and fb.denominator == 1, "integer-dtype case with non-integer coordinate"
+            ints.append([int(fa), int(fb)])
+        if dtype == "int_list":
+            return ints
+        if dtype == "int_tuple":
+            return tuple(tuple(r) for r in ints)
+        return np.array(ints, dtype=np.int64).reshape(-1, 2)
 
     def run_impl(self, case):
         aa = load_autoarray()
@@ -466,6 +538,8 @@ class C06(PropertyCheck):
             idx = np.array(case["idx"], dtype=int)
             sizes = np.array(case["sizes"], dtype=int)
             wts = np.array([[float(F(v)) for v in r] for r in case["wts"]], dtype=float)
+            if case.get("dtype") == "int_array":
+                wts = wts.astype(np.int64)
             slim_for = np.array([i for i, s in enumerate(case["sub_size"]) for _ in range(s * s)], dtype=int)
             mm = mapper_util.mapping_matrix_from(
                 pix_indexes_for_sub_slim_index=idx, pix_size_for_sub_slim_index=sizes,
@@ -481,21 +555,23 @@ class C06(PropertyCheck):
         if kind == "bary":
             from autoarray.inversion.pixelization.mappers import mapper_util
 
-            grid = self._np(case["grid"])
+            dt = case.get("dtype", "float")
+            grid = self._np(case["grid"], "int_array" if dt == "int_array" else "float")
             w = mapper_util.pixel_weights_delaunay_from(
-                source_plane_data_grid=grid, source_plane_mesh_grid=self._np(case["mesh"]),
+                source_plane_data_grid=grid,
+                source_plane_mesh_grid=self._np(case["mesh"], "float" if dt == "float" else "int_array"),
                 slim_index_for_sub_slim_index=np.zeros(len(grid), dtype=int),
                 pix_indexes_for_sub_slim_index=np.array(case["idx"], dtype=int))
             return {"weights": qmat(w)}
         if kind == "nearest":
             from autoarray.inversion.pixelization.mappers import mapper_util
 
-            grid = self._np(case["grid"])
+            grid = self._np(case["grid"], case.get("dtype", "float"))
             mp, sz = mapper_util.pix_indexes_for_sub_slim_index_delaunay_from(
                 source_plane_data_grid=grid,
                 simplex_index_for_sub_slim_index=-1 * np.ones(len(grid), dtype=int),
                 pix_indexes_for_simplex_index=np.zeros((0, 3), dtype=int),
-                delaunay_points=self._np(case["points"]))
+                delaunay_points=self._np(case["points"], case.get("dtype", "float")))
             return {"mappings": [[int(v) for v in r] for r in mp], "sizes": [int(v) for v in sz]}
         # ---- mappers through the public API
         m = np.array([c == "1" for c in case["mask"]["bits"]], dtype=bool).reshape(
@@ -507,16 +583,43 @@ class C06(PropertyCheck):
             sub = int(subs[0])
         else:
             sub = aa.Array2D(values=np.array(subs, dtype=int), mask=mask)
-        over = aa.OverSamplerUniform(mask=mask, sub_size=sub)
-        grid = aa.Grid2DIrregular(values=self._np(case["grid"]))
-        if kind == "rect":
-            mg = aa.mesh.Rectangular(shape=(case["h"], case["w"])).mapper_grids_from(
-                mask=mask, border_relocator=None, source_plane_data_grid=grid)
+        if case.get("over") == "sampling":
+            over = aa.OverSamplingUniform(sub_size=sub).over_sampler_from(mask=mask)
         else:
-            mg = aa.mesh.Delaunay().mapper_grids_from(
-                mask=mask, border_relocator=None, source_plane_data_grid=grid,
-                source_plane_mesh_grid=aa.Grid2DIrregular(values=self._np(case["points"])))
-        mapper = aa.Mapper(mapper_grids=mg, over_sampler=over, regularization=None)
+            over = aa.OverSamplerUniform(mask=mask, sub_size=sub)
+        dt = case.get("dtype", "float")
+        rtd = {} if case.get("run_time_dict") == "empty" else None
+        raw = self._np(case["grid"], dt)
+        if case.get("grid_container") == "ndarray":
+            grid = np.asarray(raw)  # a bare ndarray where a grid structure is accepted
+        else:
+            grid = aa.Grid2DIrregular(values=raw)
+        direct = case.get("route") == "direct"
+        if kind == "rect":
+            shp = (case["h"], case["w"]) if case.get("shape_container") != "list" else [case["h"], case["w"]]
+            if direct:
+                # alternative constructor: mesh object and mapper class built by hand
+                mesh_obj = aa.Mesh2DRectangular.overlay_grid(shape_native=shp, grid=grid)
+                mg = aa.MapperGrids(mask=mask, source_plane_data_grid=grid, source_plane_mesh_grid=mesh_obj,
+                                    run_time_dict=rtd)
+                mapper = aa.MapperRectangular(mapper_grids=mg, over_sampler=over, border_relocator=None,
+                                              regularization=None, run_time_dict=rtd)
+            else:
+                mg = aa.mesh.Rectangular(shape=shp).mapper_grids_from(
+                    mask=mask, border_relocator=None, source_plane_data_grid=grid, run_time_dict=rtd)
+                mapper = aa.Mapper(mapper_grids=mg, over_sampler=over, regularization=None, run_time_dict=rtd)
+        else:
+            pts_in = self._np(case["points"], dt)
+            if direct:
+                mg = aa.MapperGrids(mask=mask, source_plane_data_grid=grid,
+                                    source_plane_mesh_grid=aa.Mesh2DDelaunay(values=pts_in), run_time_dict=rtd)
+                mapper = aa.MapperDelaunay(mapper_grids=mg, over_sampler=over, border_relocator=None,
+                                           regularization=None, run_time_dict=rtd)
+            else:
+                mg = aa.mesh.Delaunay().mapper_grids_from(
+                    mask=mask, border_relocator=None, source_plane_data_grid=grid,
+                    source_plane_mesh_grid=aa.Grid2DIrregular(values=pts_in), run_time_dict=rtd)
+                mapper = aa.Mapper(mapper_grids=mg, over_sampler=over, regularization=None, run_time_dict=rtd)
         psw = mapper.pix_sub_weights
         um = mapper.unique_mappings
         nb = mapper.neighbors
